@@ -60,6 +60,12 @@ def gen(args):
                 if len(np.unique(P2, axis=0)) == N:
                     break
             X = P2.astype(float)
+        # small unsigned integers now and then (counts, fingerprints): every fit of a chain has to convert them, products of
+        # uint8 values wrap modulo 256 otherwise; the values are shifted to be non-negative first (any data is valid data)
+        Xfit = X
+        if family == "fps" and di % 3 == 2:
+            X = X - X.min()
+            Xfit = X.astype(np.uint8)
         y = rng.integers(-4, 5, size=X.shape[0]).astype(float) if (needs_y or di % 2 == 0) else None
         exact = name in ("fFPS", "sFPS", "VoronoiFPS", "sPCovFPS")
         unit = 16 if name == "sPCovFPS" else (2 if exact else (10000 if family == "fps" else 1000000))
@@ -75,14 +81,14 @@ def gen(args):
             o = cls(n_to_select=k, **kw)
             with warnings.catch_warnings():
                 warnings.simplefilter("ignore")
-                o.fit(X, y) if y is not None else o.fit(X)
+                o.fit(Xfit, y) if y is not None else o.fit(Xfit)
             return o
         cold = {}
         tables = []
         for k in range(1, nmax + 1):
             o = core.mk(cls, n_to_select=k, **kw0)
             if k == nmax:
-                rec = H.Recorder(o, name, X, y, unit, exact)
+                rec = H.Recorder(o, name, Xfit, y, unit, exact)
                 rec.fit(k, warm=False, with_y=y is not None, init=[])
                 steps = [e for e in rec.events if e["a"] == "step"]
                 ninit = 1 if family == "fps" else 0
@@ -91,7 +97,7 @@ def gen(args):
             else:
                 with warnings.catch_warnings():
                     warnings.simplefilter("ignore")
-                    o.fit(X, y) if y is not None else o.fit(X)
+                    o.fit(Xfit, y) if y is not None else o.fit(Xfit)
             cold[k] = project(H, o, name, X, y, unit, exact, axis, family)
         coldseq = [cold[k] for k in range(1, nmax + 1)]
         base = {"n": N, "tol": tol, "cold": coldseq, "longest": nmax, "tables": tables, "warm_unfitted_accepted": False,
@@ -109,7 +115,7 @@ def gen(args):
                 try:
                     with warnings.catch_warnings():
                         warnings.simplefilter("ignore")
-                        o.fit(X, y, warm_start=j > 0) if y is not None else o.fit(X, warm_start=j > 0)
+                        o.fit(Xfit, y, warm_start=j > 0) if y is not None else o.fit(Xfit, warm_start=j > 0)
                     hist.append({"req": k, "raised": False, "st": project(H, o, name, X, y, unit, exact, axis, family)})
                 except Exception as e:  # noqa
                     hist.append({"req": k, "raised": True, "st": {}, "msg": str(e)[:100]})
@@ -132,7 +138,7 @@ def gen(args):
         try:
             with warnings.catch_warnings():
                 warnings.simplefilter("ignore")
-                o.fit(X, y, warm_start=True) if y is not None else o.fit(X, warm_start=True)
+                o.fit(Xfit, y, warm_start=True) if y is not None else o.fit(Xfit, warm_start=True)
             acc = True
         except ValueError:
             acc = False
@@ -158,7 +164,7 @@ def run(tier):
     if len(scheds) != 63:
         raise core.Machinery("expected 63 schedules, got %d" % len(scheds))
     rep.cov["exhaustive"] = True
-    ndata = 2 if quick else 12
+    ndata = 3 if quick else 12
     jobs = [(vi, core.seed() * 100 + di, scheds) for vi in range(len(VARIANTS)) for di in range(ndata)]
     # larger instances: schedules up to N = 12 sampled by TLC's simulation mode
     r12 = core.run_tlc("Schedules.tla", cfg="mc/Schedules12.cfg", workers=1, simulate="num=%d" % (40 if quick else 400), depth=7,
